@@ -7,124 +7,207 @@ namespace Pg.C09
 open T
 open Pg.C08 (Atom Key)
 
-/-- Same contents as far as `derive` of a parent can see: both leaves with the same atom, or both nodes. -/
-def SameKind : T → T → Prop
-  | .leaf a, .leaf b => a = b
-  | .node _ _ _, .node _ _ _ => True
-  | _, _ => False
+theorem sv_node (m : Meta) (kd : Kind) (items : List (Key × T)) :
+    (T.node m kd items).sv = S.node kd m.cls m.sch (T.svItems items) := by simp [T.sv]
+
+theorem derive_node_typed {m : Meta} {kd : Kind} {items : List (Key × T)} {sch : Schema} (h : m.sch = some sch) :
+    derive (.node m kd items) = typedItems sch (T.svItems items) := by
+  simp [derive, T.sv, h, deriveS]
+
+theorem derive_node_plain {m : Meta} {kd : Kind} {items : List (Key × T)} (h : m.sch = none) :
+    derive (.node m kd items) = deriveItemsS (T.svItems items) := by
+  simp [derive, T.sv, h, deriveS]
+
+theorem deriveMiss_node (m : Meta) (kd : Kind) (items : List (Key × T)) :
+    deriveMiss (.node m kd items) = missItemsS (T.svItems items) := by
+  simp [deriveMiss, T.sv, missS]
+
+/-- `derive` / `deriveMiss` of a node see its class, its schema and the `sv` of its items only. -/
+theorem derive_congr {m m' : Meta} {kd kd' : Kind} {items items' : List (Key × T)}
+    (hc : m'.cls = m.cls) (hs : m'.sch = m.sch) (hk : kd' = kd) (hi : T.svItems items' = T.svItems items) :
+    derive (.node m' kd' items') = derive (.node m kd items) ∧
+      deriveMiss (.node m' kd' items') = deriveMiss (.node m kd items) := by
+  simp [derive, deriveMiss, T.sv, hc, hs, hk, hi]
 
 mutual
-  theorem readAll_spec (here : Path) : (t : T) → Fresh t →
-      (readAll here t).2.1 = derive t ∧ Fresh (readAll here t).1 ∧ derive (readAll here t).1 = derive t ∧
-        SameKind t (readAll here t).1
-    | .leaf a, _ => by simp [readAll, derive, Fresh, SameKind]
-    | .node m kd items, h => by
+  theorem readND_spec : (t : T) → Fresh t →
+      (readND t).2 = derive t ∧ Fresh (readND t).1 ∧ (readND t).1.sv = t.sv
+    | .leaf a, _ => by simp [readND, derive, T.sv, deriveS, Fresh]
+    | .node ⟨id, sub, cache, miss, cls, sch⟩ kd items, h => by
       simp only [Fresh] at h
-      obtain ⟨h1, h2, h3⟩ := readItems_spec here items h.2
-      have hown : (match m.cache with
-          | some d => d
-          | none => (readItems here items).2.1) = deriveItems items := by
-        rcases h.1 with hc | hc
-        · simp [hc, h1]
-        · simp [hc]
-      simp only [readAll, derive, Fresh, SameKind, h3, h2, and_self, and_true]
-      refine ⟨hown, Or.inr ?_⟩
-      rcases h.1 with hc | hc <;> simp [hc, h1]
-  theorem readItems_spec (here : Path) : (items : List (Key × T)) → FreshItems items →
-      (readItems here items).2.1 = deriveItems items ∧ FreshItems (readItems here items).1 ∧
-        deriveItems (readItems here items).1 = deriveItems items
-    | [], _ => by simp [readItems, deriveItems, FreshItems]
+      obtain ⟨⟨hc, hm⟩, hi⟩ := h
+      simp only [readND]
+      cases cache with
+      | some d =>
+        simp only []
+        have hd : d = derive (.node ⟨id, sub, some d, miss, cls, sch⟩ kd items) := by
+          rcases hc with hc | hc
+          · cases hc
+          · exact Option.some.inj hc
+        refine ⟨hd, ?_, trivial⟩
+        simp only [Fresh]
+        exact ⟨⟨Or.inr (by rw [← hd]), hm⟩, hi⟩
+      | none =>
+        simp only []
+        cases sch with
+        | some sc =>
+          simp only []
+          refine ⟨by simp [derive, T.sv, deriveS], ?_, by simp [T.sv]⟩
+          simp only [Fresh]
+          refine ⟨⟨Or.inr (by simp [derive, T.sv, deriveS]), ?_⟩, hi⟩
+          simpa [deriveMiss, T.sv] using hm
+        | none =>
+          simp only []
+          obtain ⟨i1, i2, i3⟩ := readNDItems_spec items hi
+          refine ⟨by simp [derive, T.sv, deriveS, i1], ?_, by simp [T.sv, i3]⟩
+          simp only [Fresh]
+          refine ⟨⟨Or.inr (by simp [derive, T.sv, deriveS, i1, i3]), ?_⟩, i2⟩
+          simpa [deriveMiss, T.sv, i3] using hm
+  theorem readNDItems_spec : (items : List (Key × T)) → FreshItems items →
+      (readNDItems items).2 = deriveItemsS (T.svItems items) ∧ FreshItems (readNDItems items).1 ∧
+        T.svItems (readNDItems items).1 = T.svItems items
+    | [], _ => by simp [readNDItems, T.svItems, deriveItemsS, FreshItems]
     | (k, .leaf a) :: rest, h => by
       simp only [FreshItems] at h
-      obtain ⟨h1, h2, h3⟩ := readItems_spec here rest h.2
-      simp [readItems, deriveItems, FreshItems, h1, h2, h3, Fresh]
+      obtain ⟨h1, h2, h3⟩ := readNDItems_spec rest h.2
+      simp [readNDItems, T.svItems, T.sv, deriveItemsS, FreshItems, h1, h2, h3, Fresh]
     | (k, .node m kd its) :: rest, h => by
       simp only [FreshItems] at h
-      obtain ⟨h1, h2, h3⟩ := readItems_spec here rest h.2
-      obtain ⟨g1, g2, g3, g4⟩ := readAll_spec (here ++ [k]) (.node m kd its) h.1
-      simp only [readItems, deriveItems, FreshItems, h1, g1, h2, g2, and_self, true_and]
-      -- the child read is again a node with the same derived value
-      cases hr : (readAll (here ++ [k]) (.node m kd its)).1 with
-      | leaf a => rw [hr] at g4; simp [SameKind] at g4
-      | node m' kd' its' =>
-        rw [hr] at g3
-        simp only [deriveItems, g3, h3]
+      obtain ⟨h1, h2, h3⟩ := readNDItems_spec rest h.2
+      obtain ⟨g1, g2, g3⟩ := readND_spec (.node m kd its) h.1
+      simp only [readNDItems, T.svItems, FreshItems, g2, h2, and_self, g3, h3, and_true]
+      rw [g1, h1]
+      simp [derive, T.sv, deriveItemsS]
 end
 
-theorem deriveItems_setKv {k : Key} {c c' : T} :
-    (items : List (Key × T)) → lookup k items = some c → SameKind c c' → derive c' = derive c →
-      deriveItems (setKv k c' items) = deriveItems items
-  | [], h, _, _ => by simp [lookup] at h
-  | (k0, v0) :: rest, h, hs, hd => by
+mutual
+  theorem readMiss_spec : (t : T) → Fresh t →
+      (readMiss t).2 = deriveMiss t ∧ Fresh (readMiss t).1 ∧ (readMiss t).1.sv = t.sv
+    | .leaf a, _ => by simp [readMiss, deriveMiss, T.sv, missS, Fresh]
+    | .node ⟨id, sub, cache, miss, cls, sch⟩ kd items, h => by
+      simp only [Fresh] at h
+      obtain ⟨⟨hc, hm⟩, hi⟩ := h
+      simp only [readMiss]
+      cases miss with
+      | some d =>
+        simp only []
+        have hd : d = deriveMiss (.node ⟨id, sub, cache, some d, cls, sch⟩ kd items) := by
+          rcases hm with hm | hm
+          · cases hm
+          · exact Option.some.inj hm
+        refine ⟨hd, ?_, trivial⟩
+        simp only [Fresh]
+        exact ⟨⟨hc, Or.inr (by rw [← hd])⟩, hi⟩
+      | none =>
+        simp only []
+        obtain ⟨i1, i2, i3⟩ := readMissItems_spec items hi
+        refine ⟨by simp [deriveMiss, T.sv, missS, i1], ?_, by simp [T.sv, i3]⟩
+        simp only [Fresh]
+        refine ⟨⟨?_, Or.inr (by simp [deriveMiss, T.sv, missS, i1, i3])⟩, i2⟩
+        simpa [derive, T.sv, i3] using hc
+  theorem readMissItems_spec : (items : List (Key × T)) → FreshItems items →
+      (readMissItems items).2 = missItemsS (T.svItems items) ∧ FreshItems (readMissItems items).1 ∧
+        T.svItems (readMissItems items).1 = T.svItems items
+    | [], _ => by simp [readMissItems, T.svItems, missItemsS, FreshItems]
+    | (k, .leaf a) :: rest, h => by
+      simp only [FreshItems] at h
+      obtain ⟨h1, h2, h3⟩ := readMissItems_spec rest h.2
+      simp [readMissItems, T.svItems, T.sv, missItemsS, FreshItems, h1, h2, h3, Fresh]
+    | (k, .node m kd its) :: rest, h => by
+      simp only [FreshItems] at h
+      obtain ⟨h1, h2, h3⟩ := readMissItems_spec rest h.2
+      obtain ⟨g1, g2, g3⟩ := readMiss_spec (.node m kd its) h.1
+      simp only [readMissItems, T.svItems, FreshItems, g2, h2, and_self, g3, h3, and_true]
+      rw [g1, h1]
+      simp [deriveMiss, T.sv, missItemsS]
+end
+
+theorem svItems_setKv {k : Key} {c c' : T} :
+    (items : List (Key × T)) → lookup k items = some c → c'.sv = c.sv →
+      T.svItems (setKv k c' items) = T.svItems items
+  | [], h, _ => by simp [lookup] at h
+  | (k0, v0) :: rest, h, hs => by
     simp only [lookup] at h
     simp only [setKv]
     by_cases h0 : k0 = k
     · subst h0
       simp only [if_true, Option.some.injEq] at h
       subst h
-      simp only [if_true]
-      cases v0 with
-      | leaf a =>
-        cases c' with
-        | leaf b => simp only [SameKind] at hs; subst hs; rfl
-        | node _ _ _ => simp [SameKind] at hs
-      | node m kd its =>
-        cases c' with
-        | leaf b => simp [SameKind] at hs
-        | node m' kd' its' => simp only [deriveItems, hd]
+      simp [T.svItems, hs]
     · simp only [h0, if_false] at h ⊢
-      have ih := deriveItems_setKv rest h hs hd
-      cases v0 with
-      | leaf a => simp only [deriveItems, ih]
-      | node m kd its => simp only [deriveItems, ih]
+      simp [T.svItems, svItems_setKv rest h hs]
 
-/-- Replacing the node at `p` by a fresh node with the same derived value keeps the tree fresh. -/
+/-- Replacing the node at `p` by a fresh node with the same contents and specs keeps the tree fresh. -/
 theorem mapAt_fresh_same : (p : Path) → (root n n' : T) → Fresh root → getAt root p = some n →
-    Fresh n' → derive n' = derive n → SameKind n n' →
-    Fresh (mapAt (fun _ => n') root p) ∧ derive (mapAt (fun _ => n') root p) = derive root ∧
-      SameKind root (mapAt (fun _ => n') root p)
-  | [], root, n, n', _, hg, hn, hd, hs => by
+    Fresh n' → n'.sv = n.sv →
+    Fresh (mapAt (fun _ => n') root p) ∧ (mapAt (fun _ => n') root p).sv = root.sv
+  | [], root, n, n', _, hg, hn, hs => by
     simp only [getAt, Option.some.injEq] at hg; subst hg
-    exact ⟨hn, hd, hs⟩
-  | k :: rest, .leaf a, n, n', _, hg, _, _, _ => by simp [getAt, child] at hg
-  | k :: rest, .node m kd items, n, n', hf, hg, hn, hd, hs => by
+    exact ⟨hn, hs⟩
+  | k :: rest, .leaf a, n, n', _, hg, _, _ => by simp [getAt, child] at hg
+  | k :: rest, .node m kd items, n, n', hf, hg, hn, hs => by
     simp only [getAt, child] at hg
     cases hc : lookup k items with
     | none => simp [hc] at hg
     | some c =>
       simp only [hc] at hg
       simp only [Fresh] at hf
-      obtain ⟨i1, i2, i3⟩ := mapAt_fresh_same rest c n n' (freshItems_lookup items hf.2 hc) hg hn hd hs
-      have hdi := deriveItems_setKv (c' := mapAt (fun _ => n') c rest) items hc i3 i2
-      simp only [mapAt, child, hc, setChild, Fresh, derive, SameKind, hdi, and_true]
-      exact ⟨hf.1, freshItems_setKv i1 items hf.2⟩
+      obtain ⟨i1, i2⟩ := mapAt_fresh_same rest c n n' (freshItems_lookup items hf.2 hc) hg hn hs
+      have hsv := svItems_setKv (c' := mapAt (fun _ => n') c rest) items hc i2
+      have hd := derive_congr (m := m) (m' := m) (kd := kd) (kd' := kd) (items := items)
+        (items' := setKv k (mapAt (fun _ => n') c rest) items) rfl rfl rfl hsv
+      simp only [mapAt, child, hc, setChild, Fresh]
+      refine ⟨⟨⟨?_, ?_⟩, freshItems_setKv i1 items hf.2⟩, by simp [T.sv, hsv]⟩
+      · rw [hd.1]; exact hf.1.1
+      · rw [hd.2]; exact hf.1.2
 
-/-- READS: on a fresh tree, a read at `p` answers exactly the fresh computation on the current
-contents of that node, and leaves the tree fresh (whatever it memoised on the way). -/
-theorem readAt_spec (root : T) (p : Path) (hf : Fresh root) :
-    (readAt root p).2 = (getAt root p).map derive ∧ Fresh (readAt root p).1 := by
+/-- READS: on a fresh tree, a read of any of the facts at `p` answers exactly the fresh computation
+(against the value specs) on the current contents of that node, and leaves the tree fresh (whatever
+it memoised, and wherever). -/
+theorem readAt_spec (root : T) (p : Path) (f : Facts) (hf : Fresh root) :
+    (readAt root p f).2 = (getAt root p).map (fun n =>
+        (if f.nd then derive n else [], if f.miss then deriveMiss n else [])) ∧
+      Fresh (readAt root p f).1 := by
   unfold readAt
   cases hg : getAt root p with
   | none => exact ⟨rfl, hf⟩
   | some n =>
-    obtain ⟨g1, g2, g3, g4⟩ := readAll_spec p n (fresh_getAt p root n hf hg)
-    simp only [Option.map_some, g1, true_and]
-    exact (mapAt_fresh_same p root n _ hf hg g2 g3 g4).1
+    have hn := fresh_getAt p root n hf hg
+    simp only [Option.map_some]
+    have h1 : (if f.nd then readND n else (n, [])).2 = (if f.nd then derive n else []) ∧
+        Fresh (if f.nd then readND n else (n, [])).1 ∧ (if f.nd then readND n else (n, [])).1.sv = n.sv := by
+      cases f.nd
+      · exact ⟨rfl, hn, rfl⟩
+      · simpa using readND_spec n hn
+    obtain ⟨a1, a2, a3⟩ := h1
+    have h2 : (if f.miss then readMiss (if f.nd then readND n else (n, [])).1 else ((if f.nd then readND n else (n, [])).1, [])).2
+          = (if f.miss then deriveMiss n else []) ∧
+        Fresh (if f.miss then readMiss (if f.nd then readND n else (n, [])).1 else ((if f.nd then readND n else (n, [])).1, [])).1 ∧
+        (if f.miss then readMiss (if f.nd then readND n else (n, [])).1 else ((if f.nd then readND n else (n, [])).1, [])).1.sv = n.sv := by
+      cases f.miss
+      · exact ⟨rfl, a2, a3⟩
+      · obtain ⟨b1, b2, b3⟩ := readMiss_spec _ a2
+        refine ⟨?_, b2, b3.trans a3⟩
+        simp only [if_true]
+        rw [b1]; simp [deriveMiss, a3]
+    obtain ⟨b1, b2, b3⟩ := h2
+    refine ⟨by rw [a1, b1], ?_⟩
+    exact (mapAt_fresh_same p root n _ hf hg b2 b3).1
 
 /-- One step of a history: a public call, or a read of the derived facts of one node. -/
 inductive HStep where
   | call (recv : Path) (notifyOn : Bool) (op : Op)
-  | read (p : Path)
+  | read (p : Path) (f : Facts)
 
 /-- The values a step hands in satisfy `P` (instantiated with "carry no stale memo"). -/
 def HStep.Admissible (P : Op → Prop) : HStep → Prop
   | .call _ _ op => P op
-  | .read _ => True
+  | .read _ _ => True
 
 def runH : T → List HStep → T
   | t, [] => t
   | t, .call recv n op :: rest => runH (step t recv n op).tree rest
-  | t, .read p :: rest => runH (readAt t p).1 rest
+  | t, .read p f :: rest => runH (readAt t p f).1 rest
 
 
 end Pg.C09
